@@ -142,4 +142,47 @@ PROPS = {
         "assumptions": ["every iteration's field list is duplicate-free (indexOfOutField = first match; the planner's sourceForTable and table.fields satisfy it)",
                         "coalesced_equals_solo: the query's includeMemStore equals the OR over the batch (otherwise known finding C17-includeMemStore-or) and no file row is blank for it (Covers; always true for the table's own fields on an unaltered table; rows without any value are invisible to every consumer in the repo)"],
     },
+
+    "C06": {
+        "lean": ["ZenoModel.Props.C06"],
+        "theorems": ["regroup_is_reaggregation", "regroup_value", "regroup_order_irrelevant", "bucket_contains",
+                     "buckets_partition", "subMerge_targets_bucket", "spec_bucket_is_outPeriod"],
+        "engines": [
+            {"name": "query", "n_quick": 120, "n_thorough": 12000, "n_search": 240, "shards": 6, "shards_thorough": 16,
+             "timeout_quick": 600, "timeout_thorough": 5400},
+            {"name": "seq", "n_quick": 3000, "n_thorough": 200000, "n_search": 10000},
+        ],
+        "trusted_base": [TB_FLOAT, TB_TIME,
+                         "the executable spec specQuery (raw points -> buckets -> direct accumulation) and the mechanistic model runQuery (scan -> Group with SubMerge -> Flatten) are both compared with the real executor on every generated query; the theorems state the algebraic and arithmetic facts that make the two coincide (n-way merge homomorphism, bucket partition, SubMerge index arithmetic); a full refinement proof runQuery = specQuery is not given",
+                         "dimension predicates / group-by expressions are evaluated by the real goexpr in the harness; only plain dimension names are generated as GROUP BY items; CROSSTAB, STRIDE and FROM-subqueries are outside the model (STRIDE and SHIFT are covered at the Sequence.SubMerge level by the seq engine)",
+                         "the model consumes the REAL parser's summary of the query (sql.Parse: group-by names, resolution, bounds, flags) and only re-derives the field expressions, which are checked to print like the real ones"],
+        "assumptions": ["table fields print distinctly (else known finding field-identity-collision)", "periods are multiples of the table resolution (the planner rejects others)"],
+    },
+    "C07": {
+        "lean": ["ZenoModel.Props.C07"],
+        "theorems": ["window_default", "window_requested", "bound_rounded_up", "aligned_bound_exact", "window_exact",
+                     "window_general", "asOf_before_table_rejected", "at_least_one_period", "spec_window_clause"],
+        "engines": [
+            {"name": "query", "n_quick": 120, "n_thorough": 12000, "n_search": 240, "shards": 6, "shards_thorough": 16,
+             "timeout_quick": 600, "timeout_thorough": 5400},
+            {"name": "seq", "n_quick": 3000, "n_thorough": 200000, "n_search": 10000},
+        ],
+        "trusted_base": [TB_FLOAT, TB_TIME,
+                         "window_exact is about Sq.truncate, the restriction Sequence.SubMerge applies to every stored series before regrouping (tied by the seq engine); the planner's bounds come from planLocal/windowFor (tied by the query engine, which also evaluates the raw-point spec on bounded queries)",
+                         "the database clock is the virtual clock (maximum accepted timestamp); relative bounds are offsets from it"],
+        "assumptions": ["stored series are on the absolute grid of the table resolution (proved invariant SeqOk, Lemmas/SeqUpdate+SeqInv)"],
+    },
+    "C08": {
+        "lean": ["ZenoModel.Props.C08"],
+        "theorems": ["having_keeps_iff", "having_strips_helper", "having_sublist", "where_commutes_with_window",
+                     "where_excludes", "in_subquery_is_in_list", "in_subquery_distinct", "having_helper_has_value_without_data"],
+        "engines": [
+            {"name": "query", "n_quick": 120, "n_thorough": 12000, "n_search": 240, "shards": 6, "shards_thorough": 16,
+             "timeout_quick": 600, "timeout_thorough": 5400},
+        ],
+        "trusted_base": [TB_FLOAT, TB_TIME,
+                         "dimension predicates (WHERE, incl. the result of IN-subqueries) are opaque bits per row key evaluated by the real goexpr in the harness; HAVING is the synthetic last column of the field list, evaluated by M-EXPR",
+                         "FROM-subqueries and IN-subqueries are exercised by implementation-only metamorphic differentials, not by the model"],
+        "assumptions": ["the HAVING clause 'exactly those rows of the HAVING-free query' holds only up to known finding empty-bucket-row (rows for periods without data)"],
+    },
 }
